@@ -5,6 +5,22 @@
 //                                               concrete-playback byte vectors
 use falcon_rust::verif_api;
 
+// C01 (concurrency clause), compile-time obligations discharged by rustc: the key and signature
+// types can be shared between threads, and sign / verify take them by shared reference.
+#[allow(dead_code)]
+fn assert_send_sync<T: Send + Sync>() {}
+#[allow(dead_code)]
+fn c01_frame_obligations() {
+    assert_send_sync::<falcon_rust::falcon512::SecretKey>();
+    assert_send_sync::<falcon_rust::falcon1024::SecretKey>();
+    assert_send_sync::<falcon_rust::falcon512::PublicKey>();
+    assert_send_sync::<falcon_rust::falcon1024::PublicKey>();
+    assert_send_sync::<falcon_rust::falcon512::Signature>();
+    assert_send_sync::<falcon_rust::falcon1024::Signature>();
+    let _s512: fn(&[u8], &falcon_rust::falcon512::SecretKey) -> falcon_rust::falcon512::Signature = falcon_rust::falcon512::sign;
+    let _s1024: fn(&[u8], &falcon_rust::falcon1024::SecretKey) -> falcon_rust::falcon1024::Signature = falcon_rust::falcon1024::sign;
+}
+
 fn unhex(s: &str) -> Vec<u8> {
     (0..s.len() / 2)
         .map(|i| u8::from_str_radix(&s[2 * i..2 * i + 2], 16).unwrap())
